@@ -106,7 +106,8 @@ def run_once(profile, opts, target):
 def check_interrupted(ctx, E, full_values, k, case):
     "renderers after an interruption at event k"
     outs = {}
-    for name in ('report', 'dump', 'json'):
+    order = [('report', 'dump', 'json'), ('json', 'report', 'dump'), ('dump', 'json', 'report'), ('json', 'dump', 'report')][k % 4]
+    for name in order:      # whichever rendering is asked for first logs the marker; the others must not repeat it
         try:
             with contextlib.redirect_stdout(io.StringIO()):
                 outs[name] = getattr(E, name)(True)
